@@ -154,7 +154,9 @@ func BindWith(s *Spec, modes Modes, extra func(*schemabuilder.Schema)) (b *Bound
 	env := &Env{}
 	schema := schemabuilder.NewSchema()
 	schema.Enum(EnumA(0), EnumAMap)
-	schema.Enum(EnumB(""), EnumBMap)
+	// registered through an untyped map in which one value has the enum type and the other its
+	// underlying type (both are accepted and mean the same)
+	schema.Enum(EnumB(""), map[string]interface{}{"small": EnumBMap["small"], "large": string(EnumBMap["large"])})
 	for _, os := range s.Objects {
 		var obj *schemabuilder.Object
 		var goType reflect.Type
